@@ -21,7 +21,44 @@ def cache_class(repo):
     ci = m.classes.get('cache')
     if ci is None:
         raise AnalysisError('anchor vanished: class cache in klepto/_archives.py')
+    _canonical_slots(ci)
     return m, ci
+
+
+def _canonical_slots(ci):
+    """The cache object has two slots: the attached archive and the one set aside while archiving is toggled off.  They are recognised by what the constructor
+    puts into them (the `archive` keyword / a fresh null_archive()), not by their names; a renamed slot (with the old name kept as a deprecated alias
+    property) is mapped back to the names the rules speak of, and accessor properties of a slot are bypassed: a slot holds what was last stored in it."""
+    if getattr(ci, '_slots_done', False):
+        return
+    ci._slots_done = True
+    init = ci.methods.get('__init__')
+    if init is None or not init.node.args.args:
+        return
+    selfn = init.node.args.args[0].arg
+    swap = arch = None
+    for st in init.node.body:
+        if isinstance(st, ast.Assign) and len(st.targets) == 1 and isinstance(st.targets[0], ast.Attribute) and isinstance(st.targets[0].value, ast.Name) \
+                and st.targets[0].value.id == selfn:
+            v = st.value
+            if isinstance(v, ast.Call) and isinstance(v.func, ast.Name) and v.func.id == 'null_archive' and not v.args and not v.keywords:
+                swap = swap or st.targets[0].attr
+            elif any(isinstance(y, ast.Constant) and y.value == 'archive' for y in ast.walk(v)):
+                arch = arch or st.targets[0].attr
+    ren = {}
+    if swap and swap != '__swap__' and arch != swap:
+        ren[swap] = '__swap__'
+    if arch and arch != '__archive__':
+        ren[arch] = '__archive__'
+    if not ren:
+        return
+    for fi in ci.methods.values():
+        for x in ast.walk(fi.node):
+            if isinstance(x, ast.Attribute) and x.attr in ren and isinstance(x.value, ast.Name):
+                x.attr = ren[x.attr]
+    for old_, new_ in ren.items():
+        ci.properties.pop(old_, None)
+        ci.properties.pop(new_, None)      # the deprecated alias of the old name
 
 
 class CModel(Model):
